@@ -14,6 +14,15 @@ GREEDY_RANK = {'HS', 'IHS'}
 ADAPTIVE = {'AIWPSO': {'w'}, 'IHS': {'PAR', 'bw'}, 'SA': {'T'}, 'FA': {'alpha'}, 'WCA': {'d_max'}}
 
 
+def fnum(v):
+    """the numeric value of a fitness *now* (Python/NumPy scalar, 0-d or size-1 array, possibly a live view)"""
+    try:
+        return float(v)
+    except TypeError:
+        import numpy as _np
+        return float(_np.asarray(v).reshape(-1)[0])
+
+
 def budget(kind, n):
     """(min, max) objective calls between two consecutive hooks (update trials + the sweep)"""
     if kind in ('BA', 'BHA', 'FPA', 'SA'):
@@ -40,6 +49,10 @@ def make_objective(name, np, ub, rettype):
         return lambda x: conv(np.sum(x ** 2))
     if name == 'boundary':
         return lambda x: conv(np.sum((x - ubc) ** 2))
+    if name == 'view0':
+        # the first variable, returned as a *view* of the argument (a size-1 array sharing its memory): a legal
+        # objective whose value must be taken when it is returned, not when it is looked at later
+        return lambda x: x[0]
     if name == 'outside':
         # the unconstrained optimum lies beyond the upper bounds: every out-of-box step towards it is an improvement
         tgt = ubc + 1.0 + 0.5 * np.abs(ubc)
@@ -112,6 +125,8 @@ def hyper_sample(rng, kind, n_agents, mode):
         return {}
     u = rng.uniform
     e = mode == 'ends'
+    if mode == 'underflow' and kind != 'SA':
+        mode = 'random'
     if mode in ('degenerate', 'outside') and kind not in ('AIWPSO', 'IHS'):
         mode = 'random'
 
@@ -154,6 +169,9 @@ def hyper_sample(rng, kind, n_agents, mode):
                 b = a
         return {'HMCR': pick(0.0, 1.0), 'PAR_min': a, 'PAR_max': b, 'bw_min': c, 'bw_max': d}
     if kind == 'SA':
+        if mode == 'underflow':
+            # the temperature reaches exactly 0 during the run (denormal start, halving) or starts there: it must stay there
+            return {'T': rng.choice([5e-324, 1e-323, 0.0]), 'beta': rng.choice([0.5, 0.25, 0.9])}
         return {'T': rng.choice([1e-12, 1e-300, 100.0]) if e else rng.choice([round(u(0.01, 100.0), 3), 1e-12, 5e-11]), 'beta': pick(0.01, 1.0)}
     if kind == 'SCA':
         a, b = sorted([pick(0.0, 2.0), pick(0.0, 2.0)])
@@ -276,10 +294,10 @@ def snapshot(L):
             tpos = np.array(REC.local[i], dtype=float, copy=True)
         else:
             tpos = apos
-        pop.append(dict(pos=apos, real=pos, tpos=tpos, fit=a.fit, ref=_base_id(a.position),
+        pop.append(dict(pos=apos, real=pos, tpos=tpos, fit=fnum(a.fit), ref=_base_id(a.position),
                         lb=np.array(a.lb, copy=True), ub=np.array(a.ub, copy=True)))
     b = sp.best_agent
-    best = dict(pos=np.array(b.position, dtype=float, copy=True), fit=b.fit, ref=_base_id(b.position))
+    best = dict(pos=np.array(b.position, dtype=float, copy=True), fit=fnum(b.fit), ref=_base_id(b.position))
     return dict(pop=pop, best=best)
 
 
@@ -321,9 +339,9 @@ def install(L):
         live = {}
         for k, v in kw.items():
             if k == 'agents':
-                live[k] = [(np.array(a.position, copy=True).tolist(), a.fit) for a in v]
+                live[k] = [(np.array(a.position, copy=True).tolist(), _copy.deepcopy(a.fit)) for a in v]
             elif k == 'best_agent':
-                live[k] = (np.array(v.position, copy=True).tolist(), v.fit)
+                live[k] = (np.array(v.position, copy=True).tolist(), _copy.deepcopy(v.fit))
             elif k == 'local':
                 live[k] = [np.array(p, copy=True).tolist() for p in v]
             elif k == 'best_tree':
@@ -486,7 +504,7 @@ def build_task(L, cfg, events):
             arg = np.array(x, copy=True)
             fr = sys._getframe(1)
             v = of(x)
-            events.append(dict(t='eval', snap=snap, arg=arg, val=v, ref=_base_id(x) if isinstance(x, np.ndarray) else None,
+            events.append(dict(t='eval', snap=snap, arg=arg, val=fnum(v), ref=_base_id(x) if isinstance(x, np.ndarray) else None,
                                site=fr.f_code.co_name, isarr=isinstance(x, np.ndarray)))
             return v
         return f
@@ -566,6 +584,21 @@ def record_run(cfg):
                                hp=hp_snapshot(o), caller=fr.f_code.co_name, live=live_checks(L, s, cfg)))
         finally:
             REC.in_hook = False
+    if cfg.get('prior'):
+        # the same optimizer object has already run another task (other box / shape / length) before this one
+        pr = dict(cfg, **cfg['prior'])
+        try:
+            if pr['space'] == 'search':
+                psp = L['SearchSpace'](n_agents=pr['n_agents'], n_variables=pr['n_vars'], n_iterations=pr['n_iter'],
+                                       lower_bound=list(pr['lb']), upper_bound=list(pr['ub']))
+            else:
+                psp = L['HyperSpace'](n_agents=pr['n_agents'], n_variables=pr['n_vars'], n_dimensions=pr['n_dims'],
+                                      n_iterations=pr['n_iter'], lower_bound=list(pr['lb']), upper_bound=list(pr['ub']))
+            pfn = L['Function'](pointer=make_objective('sphere', np, pr['ub'] if pr['space'] == 'search' else [1.0] * pr['n_vars'], 'py'))
+            opt.run(psp, pfn)
+        except Exception as ex:
+            rec['error'] = dict(phase='prior', type=type(ex).__name__, msg=str(ex)[:300], frames=[])
+            return rec
     task = L['Opytimizer'](space=sp, optimizer=opt, function=fn)
     rec['hp0'] = hp_snapshot(opt)
     REC.active = True
